@@ -16,6 +16,17 @@ class Cfg:
             t = b["term"]
             if t["k"] in ("unreachable", "resume", "terminate") or (t["k"] == "call" and t.get("target") is None):
                 self.div.add(b["id"])
+        # ... and so are blocks that can only lead to such blocks (building the panic message, then panicking)
+        changed = True
+        while changed:
+            changed = False
+            for b in fn.mir["blocks"]:
+                if b["id"] in self.div or b["cleanup"] or b["term"]["k"] == "return":
+                    continue
+                ss = [s for s in fn.succs(b) if not fn.block_by_id[s]["cleanup"]]
+                if ss and all(s in self.div for s in ss):
+                    self.div.add(b["id"])
+                    changed = True
         # reachable, non-cleanup blocks only
         work = [self.entry]
         seen = {self.entry}
